@@ -69,8 +69,16 @@ class Model:
 
     # -- registrations ---------------------------------------------------------------------------
     def _collect_registrations(self):
+        from .desugar import unroll_block
+
         for m in self.prog.modules.values():
-            for st in m.tree.body:
+            body = m.tree.body
+            if any(isinstance(st, ast.For) and any(isinstance(c, ast.Call) and dotted(c.func) == "register_element_cls" for c in ast.walk(st))
+                   for st in body):
+                body = unroll_block(body, m.tree)  # data-driven registration: `for tag, cls in (...): register_element_cls(tag, cls)`
+            for st in body:
+                if isinstance(st, ast.For) and any(isinstance(c, ast.Call) and dotted(c.func) == "register_element_cls" for c in ast.walk(st)):
+                    raise AnalysisError("%s:%d registration loop over something that is not a literal" % (m.relpath, st.lineno))
                 if isinstance(st, ast.Expr) and isinstance(st.value, ast.Call):
                     c = st.value
                     if dotted(c.func) == "register_element_cls" and len(c.args) == 2:
